@@ -398,13 +398,11 @@ package bufcheckserverhandle
 //@   ensures singular-non-message: r == a_canHaveDefault(descriptor)
 //@   reveal a_canHaveDefault
 // value extraction and comparison over reflect / math/big: outside the fragment (trusted, see C03_pairs.spec)
-//@ trusted pure func getDefault(descriptor) (r)
 //@ trusted pure func (f fieldDefault) isZero() (r)
-//@ trusted pure func defaultsEqual(previous, current) (r)
 //
 //@ func handleBreakingFieldSameDefault(responseWriter, request, field, previousField) (err)
 //@   property C03 C04
-//@   modifies ghost.annCount, ghost.annLocs, ghost.annFiles
+//@   modifies ghost.annCount, ghost.annLocs, ghost.annFiles, ghost.rl_fval, ghost.rl_fexact
 //@   ensures error-iff: err == nil <==> a_descOK(previousField) && a_descOK(field)
 //@   ensures changed-reported {C03}: err == nil && a_defaultChanged(field, previousField) ==> ghost.annCount == old(ghost.annCount) + 1 && ghost.annLocs == add(old(ghost.annLocs), a_loc2(field.DefaultLocation(), field.Location())) && ghost.annFiles == add(old(ghost.annFiles), field.File().Path())
 //@   ensures same-silent {C04}: err != nil || !a_defaultChanged(field, previousField) ==> ghost.annCount == old(ghost.annCount) && ghost.annLocs == old(ghost.annLocs) && ghost.annFiles == old(ghost.annFiles)
